@@ -23,7 +23,11 @@ def legal(names, sc):
 def keys():
     movers = [o.name for o in c23.OPS if o.moves]
     users = [o.name for o in c23.OPS]
-    exp = {r: set() for r in ("R1", "R2", "R3", "R4", "R5")}
+    exp = {r: set() for r in ("R1", "R2", "R3", "R4", "R5", "R6")}
+    shadows = [o.name for o in c23.OPS if not o.uses]
+    # R6: after a real move (the movers R2/R4/R5 break do not move for the tool) a nested re-binding of the name is flagged;
+    # `shadow-subr` only mentions the inner name as a callee, which the checker never looks at (R1)
+    real_movers = [m for m in movers if m not in ("take-keyword", "take-method", "rebind-block")] + ["rebind-other"]
     for sc in c23.SCOPES:
         for m in movers:
             for u in ("push", "index", "method-get"):
@@ -32,11 +36,15 @@ def keys():
             for u in ("take-keyword", "show-keyword"):
                 if legal([m, u], sc):
                     exp["R2"].add(f"missed:{m}->{u}:{sc}")
+        for m in real_movers:
+            for sh in shadows:
+                if sh != "shadow-subr" and legal([m, sh] if m != "rebind-other" else [sh], sc):
+                    exp["R6"].add(f"spurious-move-error:{m}->{sh}:{sc}")
         for u in users:
-            if u == "in-list-twice" or u in UNCHECKED:
+            if u == "in-list-twice" or u in UNCHECKED or u == "shadow-subr":
                 continue  # `[v, v]` is rejected by its own second mention whatever happened before
             for mover, root in (("take-keyword", "R2"), ("take-method", "R4"), ("rebind-block", "R5")):
-                if legal([mover, u], sc):
+                if legal([mover, u], sc) and u not in shadows:  # a shadowing statement is never a use
                     exp[root].add(f"missed:{mover}->{u}:{sc}")
             for prior, root in (("show-varargs", "R3"), ("show-method-second", "R4")):
                 if legal([prior, u], sc):
@@ -62,6 +70,9 @@ def main():
         {"property": "C23", "name": "block-value-not-moved", "keys": sorted(exp["R5"]),
          "witness": "v = ![1]\nw =\n    k = 1\n    v\nw.push! 2\nprint! v   # accepted, prints [1, 2]: v and w alias",
          "what": "check_block visits every chunk of a multi-statement block with chunk=true, including the last one (the block's value), so binding a variable to the value of a block that ends in `v` does not move `v` (a one-expression block does); no repair proposed: moving the last expression of every block also changes closures/procedure bodies that end in an outer variable"},
+        {"property": "C23", "name": "shadowing-binding-of-a-moved-name-rejected", "keys": sorted(exp["R6"]),
+         "witness": "v = ![1]\nw = v\ng v: Int = v + 1\nprint! g(2), w   # erg check: MoveError: v was moved in line 2, pointing at `v + 1` inside g; same for h() = / v = 1 / v",
+         "what": "check_if_dropped looks a name up in the dropped sets of every enclosing scope without asking whether an inner scope has bound the name again: after an outer `v` was moved, a subroutine whose parameter or local variable is also called `v` gets a MoveError on its own uses of the inner `v`, although the program never uses the moved variable (last clause of the property). No small repair recorded: erasing the outer record when the name is re-bound (the obvious fix) loses the move for later uses of the outer variable - the scopes need a per-scope shadow set"},
     ]
     path = os.path.join(HERE, "known_findings.d", "C23.json")
     with open(path, "w") as f:
